@@ -809,7 +809,30 @@ func c01RunStage(c *Ctx, name, rule string, cases []*c01Case, exhaustive bool, n
 			sample = append(sample, cs)
 		}
 	}
-	if !c.Thorough() && len(sample) > 3000 {
+	if c.Search {
+		// a proof obligation or the translator broke: look harder for a failing input — every case of at most two
+		// operator nodes (where a changed precedence row shows first) and a ten times larger sample of the rest
+		var small, rest []*c01Case
+		for i, cs := range cases {
+			if !cs.minified {
+				continue
+			}
+			if cs.tag == "ops=1" || cs.tag == "ops=2" {
+				small = append(small, cs)
+			} else if (i*7919+int(c.Seed))%100 < 10*nodeShare {
+				rest = append(rest, cs)
+			}
+		}
+		if len(rest) > 30000 {
+			step := float64(len(rest)) / 30000
+			var cut []*c01Case
+			for k := 0; k < 30000; k++ {
+				cut = append(cut, rest[int(float64(k)*step)])
+			}
+			rest = cut
+		}
+		sample = append(small, rest...)
+	} else if !c.Thorough() && len(sample) > 3000 {
 		// quick tier: at most 3000 programs per stage through node (evenly spread over the stage)
 		step := float64(len(sample)) / 3000
 		var cut []*c01Case
@@ -1018,6 +1041,7 @@ var c01FixedCorpus = []string{
 	"class C{static 0=f(1)}g(C[0])", "class C{static{if(f(1)){}}}", "function q(undefined){return undefined}f(q(1))",
 	"x=\"\\\n\"?1:2", "x=!\"\\\n\"", "if(a in b){}", "x=void(a in b)", "function t(p){if((p||'')instanceof q){}}x=t(a)",
 	"function t(p1){class C{static{let e=f(1);k(e,p1)}}}t(5)", "for(var i of[1]){const[]=[]}", "for(var i of[1]){function t(){}}f(typeof t)", "if(a){f(1)}else{async function t(){}}",
+	"let x=2;if(a){throw 1}else{let x=3;h(x)}h(x)", "if(a)throw 1;else{let l=1}", "function t(){let x=2;if(a){return 1}else{let x=3;h(x)}h(x)}t()",
 	"x=a===null||a===undefined", "x=a==null?b:a", "x=a?true:false", "x=!a?b:c", "x=a?a:b", "x=(f(1),a)?a:g(2)",
 }
 
